@@ -636,6 +636,7 @@ func (in *Interp) loadPtr(fr *frame, p Value) Value {
 		}
 		if len(in.guardCells) > 0 {
 			in.checkGuardCell(p, false)
+			in.checkGuardInner(*p, false)
 		}
 		v := *p
 		if pz, bad := v.(Poison); bad {
@@ -656,6 +657,7 @@ func (in *Interp) storePtr(p Value, v Value) {
 		}
 		if len(in.guardCells) > 0 {
 			in.checkGuardCell(p, true)
+			in.checkGuardInner(*p, true)
 		}
 		assignInPlace(p, v)
 		return
@@ -689,6 +691,23 @@ func (in *Interp) checkGuardCell(p *Value, write bool) {
 			kind = "write"
 		}
 		in.p.PathViolation(fmt.Sprintf("unsynchronised %s of %s (owning lock not held) at %s", kind, g.label, in.where()))
+	}
+}
+
+// checkGuardInner: a load or store of a whole struct or array value touches
+// every field / element cell it contains.
+func (in *Interp) checkGuardInner(v Value, write bool) {
+	switch x := v.(type) {
+	case Struct:
+		for i := range x {
+			in.checkGuardCell(&x[i], write)
+			in.checkGuardInner(x[i], write)
+		}
+	case Array:
+		for i := range x {
+			in.checkGuardCell(&x[i], write)
+			in.checkGuardInner(x[i], write)
+		}
 	}
 }
 
